@@ -435,32 +435,83 @@ Definition reencode (s : bytes) : bytes := concat (runes s).
 Definition hexdig (n : N) : N := if (n <? 10)%N then (48 + n)%N else (87 + n)%N.
 Definition esc_x (c : N) (q : bytes) : bytes := (92 :: 120 :: hexdig (c / 16) :: hexdig (N.modulo c 16) :: q)%N.
 
-(* strconv.Quote on the byte universe {ASCII} + {bytes that start no valid UTF-8 sequence where they stand};
-   None on a valid multi-byte character (the Unicode tables are not modelled) *)
-Fixpoint quote_body (s : bytes) : option bytes :=
+(* code point of a valid UTF-8 sequence (the bytes of one rune) *)
+Definition decode_cp (r : bytes) : N :=
+  match r with
+  | [b0] => b0
+  | [b0; b1] => ((b0 - 192) * 64 + (b1 - 128))%N
+  | [b0; b1; b2] => ((b0 - 224) * 4096 + (b1 - 128) * 64 + (b2 - 128))%N
+  | [b0; b1; b2; b3] => ((b0 - 240) * 262144 + (b1 - 128) * 4096 + (b2 - 128) * 64 + (b3 - 128))%N
+  | _ => 0%N
+  end.
+
+(* unicode.IsPrint on a FROZEN part of Unicode (the harness checks this table against Go's strconv.IsPrint on every
+   run); None = a code point whose printability the reference does not define.  Not printable although valid:
+   the C1 controls, no-break space, soft hyphen, zero width and directional marks, line / paragraph separators,
+   word joiner and invisible operators, the byte order mark, private use. *)
+Definition rune_printable (cp : N) : option bool :=
+  if in_rng 128 cp 159 then Some false
+  else if (cp =? 160)%N || (cp =? 173)%N then Some false
+  else if in_rng 161 cp 383 then Some true                 (* Latin-1 Supplement, Latin Extended-A *)
+  else if in_rng 1040 cp 1103 then Some true               (* Cyrillic A..ya *)
+  else if in_rng 8203 cp 8207 then Some false              (* U+200B..U+200F *)
+  else if in_rng 8232 cp 8238 then Some false              (* U+2028..U+202E *)
+  else if in_rng 8288 cp 8292 then Some false              (* U+2060..U+2064 *)
+  else if (cp =? 8364)%N || (cp =? 8211)%N || (cp =? 8212)%N then Some true  (* euro sign, dashes *)
+  else if in_rng 12353 cp 12435 then Some true             (* Hiragana a..n *)
+  else if in_rng 19968 cp 40869 then Some true             (* CJK unified ideographs U+4E00..U+9FA5 *)
+  else if in_rng 57344 cp 63743 then Some false            (* private use U+E000..U+F8FF *)
+  else if (cp =? 65279)%N then Some false                  (* U+FEFF *)
+  else if (cp =? 65533)%N then Some true                   (* U+FFFD *)
+  else if in_rng 128512 cp 128591 then Some true           (* emoticons U+1F600..U+1F64F *)
+  else if in_rng 983040 cp 1048573 then Some false         (* supplementary private use area A *)
+  else None.
+
+Fixpoint hex_digits (n : nat) (v : N) (acc : bytes) : bytes :=
+  match n with O => acc | S k => hex_digits k (v / 16) (hexdig (N.modulo v 16) :: acc) end.
+
+(* strconv.Quote: ASCII as Go does; a byte that starts no valid UTF-8 sequence is \xNN; a valid multi-byte
+   character is kept when printable and written \uXXXX / \UXXXXXXXX when not (on the frozen table, else None).
+   fuel = length of the string always suffices. *)
+Fixpoint quote_fuel (fuel : nat) (s : bytes) : option bytes :=
   match s with
   | [] => Some [34%N]
   | c :: r =>
-      match quote_body r with
-      | None => None
-      | Some q =>
-          if (c =? 34)%N then Some (92 :: 34 :: q)%N
-          else if (c =? 92)%N then Some (92 :: 92 :: q)%N
-          else if (32 <=? c)%N && (c <? 127)%N then Some (c :: q)
-          else if (c =? 7)%N then Some (92 :: 97 :: q)%N
-          else if (c =? 8)%N then Some (92 :: 98 :: q)%N
-          else if (c =? 12)%N then Some (92 :: 102 :: q)%N
-          else if (c =? 10)%N then Some (92 :: 110 :: q)%N
-          else if (c =? 13)%N then Some (92 :: 114 :: q)%N
-          else if (c =? 9)%N then Some (92 :: 116 :: q)%N
-          else if (c =? 11)%N then Some (92 :: 118 :: q)%N
-          else if (c <? 32)%N || (c =? 127)%N then Some (esc_x c q)
-          else match utf8_size s with
-               | None => Some (esc_x c q)   (* a byte that starts no valid sequence *)
-               | Some _ => None             (* a valid multi-byte character: printability needs the Unicode tables *)
-               end
+      match fuel with
+      | O => None
+      | S f =>
+          if (c <? 128)%N then
+            match quote_fuel f r with
+            | None => None
+            | Some q =>
+                if (c =? 34)%N then Some (92 :: 34 :: q)%N
+                else if (c =? 92)%N then Some (92 :: 92 :: q)%N
+                else if (32 <=? c)%N && (c <? 127)%N then Some (c :: q)
+                else if (c =? 7)%N then Some (92 :: 97 :: q)%N
+                else if (c =? 8)%N then Some (92 :: 98 :: q)%N
+                else if (c =? 12)%N then Some (92 :: 102 :: q)%N
+                else if (c =? 10)%N then Some (92 :: 110 :: q)%N
+                else if (c =? 13)%N then Some (92 :: 114 :: q)%N
+                else if (c =? 9)%N then Some (92 :: 116 :: q)%N
+                else if (c =? 11)%N then Some (92 :: 118 :: q)%N
+                else Some (esc_x c q)
+            end
+          else
+            match utf8_size s with
+            | None => match quote_fuel f r with Some q => Some (esc_x c q) | None => None end
+            | Some k =>
+                let cp := decode_cp (firstn k s) in
+                match rune_printable cp, quote_fuel f (skipn k s) with
+                | Some true, Some q => Some (firstn k s ++ q)
+                | Some false, Some q =>
+                    if (cp <? 65536)%N then Some ((92 :: 117 :: hex_digits 4 cp []) ++ q)%N
+                    else Some ((92 :: 85 :: hex_digits 8 cp []) ++ q)%N
+                | _, _ => None
+                end
+            end
       end
   end.
+Definition quote_body (s : bytes) : option bytes := quote_fuel (length s) s.
 Definition quote (s : bytes) : option bytes :=
   match quote_body s with Some q => Some (34%N :: q) | None => None end.
 
